@@ -404,6 +404,9 @@ def run(ctx):
 
 def replay(path):
     d = json.load(open(path))
+    if d.get('kind') == 'capture-protocol':
+        from harness.props import c12
+        return c12.replay_capture_protocol(d, path, 'C09')
     if 'case' not in d:
         print(json.dumps(d, indent=1)[:3000])
         print('VIOLATION property=C09 replay=%s' % path)
